@@ -50,6 +50,10 @@ def unsafeArgs (direct other : List String) : Bool :=
         (segs (t.drop 3)).any (fun g => !(g == [] || g == dot)))
   direct.any bad || ((direct ++ other).map (fun s => dd s.toList)).sum > 3
 
+/-- the guard of the deep sandbox (`unsafe_deep`, `DEEP_DD` in c20.rs): at most 12 ".." in all. -/
+def unsafeDeep (other : List String) : Bool :=
+  (other.map (fun s => dd s.toList)).sum > 12
+
 /-- the harness's `cu_ok`: a CDN path of non-empty `[a-z0-9]` segments. -/
 def cuOk (path : String) : Bool :=
   !path.isEmpty && (segs path.toList).all (fun g => !g.isEmpty && g.all (fun c => c.isLower || c.isDigit))
@@ -346,6 +350,18 @@ def handle : List String → String
         | .err none => "err:other left=-"
         | .err (some t) => "err:other left=" ++ encP t
     | none => "bad-op"
+  -- queryd: query in the deep sandbox (guard `unsafeDeep`)
+  | ["queryd", e] =>
+    match decStr e with
+    | some ep =>
+      if unsafeDeep [ep] then "unsafe-skip"
+      else if validateEndpoint alnumD ep.toList != .ok then "err:invalid-endpoint"
+      else if isTcpOnly ep then "err:other left=-"
+      else match putKey 0 (String.ofList (ribbitCacheKey ep.toList)) with
+        | .ok f => fmtPut (.ok f)
+        | .err none => "err:other left=-"
+        | .err (some t) => "err:other left=" ++ encP t
+    | none => "bad-op"
   | "cdn" :: api :: scheme :: host :: path :: rest =>
     match decOpt scheme, decStr path with
     | some _, some path =>
@@ -385,6 +401,22 @@ def handle : List String → String
         match decStr ak with
         | some ak =>
           if unsafeArgs [] [path, ak] then "unsafe-skip"
+          else if !archiveKeyOk ak.toList then "err:invalid-key"
+          else if !localHost then "err:other left=-"
+          else "ok url=" ++ urlPart (cuf == "cu=1") (cdnTail path.toList sData ak.toList sIndexExt)
+        | none => "bad-op"
+      -- indexd / isized: index / isize in the deep sandbox (guard `unsafeDeep`)
+      | "indexd", [ak, cuf] =>
+        match decStr ak with
+        | some ak =>
+          if unsafeDeep [path, ak] then "unsafe-skip" else
+          storeOut (archiveIndexCacheKey path.toList ak.toList)
+            (cdnTail path.toList sData ak.toList sIndexExt) (cuf == "cu=1")
+        | none => "bad-op"
+      | "isized", [ak, cuf] =>
+        match decStr ak with
+        | some ak =>
+          if unsafeDeep [path, ak] then "unsafe-skip"
           else if !archiveKeyOk ak.toList then "err:invalid-key"
           else if !localHost then "err:other left=-"
           else "ok url=" ++ urlPart (cuf == "cu=1") (cdnTail path.toList sData ak.toList sIndexExt)
